@@ -221,9 +221,10 @@ class ValueGen:
             for flag, fs in by_flag.items():
                 bit = rng.choice([0, 1])
                 inconsistent = (self.fault == "inconsistent" and self.injected is None and len(fs) > 1)
+                flip_at = rng.randrange(len(fs)) if inconsistent else None
                 for i, f in enumerate(fs):
                     present = f["cond"]["value"] == bit
-                    if inconsistent and i == 1:
+                    if inconsistent and i == flip_at:
                         present = not present
                         self.injected = ("inconsistent", flag)
                     if f["id"] not in out:
@@ -301,6 +302,19 @@ def mutants(rng, enc, n_random=6):
         for j in range(i, min(L, i + k)):
             b[j] = rng.choice([0xff, 0xff, 0x00, 0x80])
         out.append(("extreme_wide", bytes(b)))
+    # small values and off-by-one neighbours: size / count / element-size fields just above and below
+    # what the rest of the input (or a padded region) can hold
+    for _ in range(min(32, 4 * L)):
+        if L == 0:
+            break
+        i = rng.randrange(L)
+        b = bytearray(enc)
+        if rng.random() < 0.5:
+            b[i] = rng.randrange(0, 24)
+            out.append(("small", bytes(b)))
+        else:
+            b[i] = (b[i] + rng.choice([1, 1, 2, 3, -1, -1, -2])) % 256
+            out.append(("neighbour", bytes(b)))
     for _ in range(n_random):
         n = rng.choice([0, 1, 2, 3, 5, 8, 13, L, L + 1])
         out.append(("random", bytes(rng.randrange(256) for _ in range(n))))
